@@ -1,6 +1,7 @@
 import SnootyVerif.Drv.Util
 import SnootyVerif.Model.Flutter
 import SnootyVerif.Model.SpecInherit
+import SnootyVerif.Model.Constants
 import SnootyVerif.Gen.Types
 open Lean
 namespace SnootyVerif.Drv.C16
@@ -173,7 +174,26 @@ def resolveOp (j : Json) : Except String Json := do
 def typesOp (_ : Json) : Except String Json :=
   pure (Json.mkObj [("names", jstrs (SnootyVerif.Gen.Types.table.map (·.1)))])
 
+/-- {"op":"c16.constants","table":[[key,[["lit",s]|["ref",name]…]]…]} -/
+def constantsOp (j : Json) : Except String Json := do
+  let tbl ← (← arr j "table").toList.mapM (fun e => do
+    let a ← e.getArr?
+    if h : a.size = 2 then
+      let k ← a[0].getStr?
+      let segs ← (← a[1].getArr?).toList.mapM (fun sj => do
+        let b ← sj.getArr?
+        if h2 : b.size = 2 then
+          let tag ← b[0].getStr?
+          let txt ← b[1].getStr?
+          if tag == "ref" then pure (SnootyVerif.Constants.Seg.ref txt) else pure (SnootyVerif.Constants.Seg.lit txt)
+        else throw "bad segment")
+      pure (k, segs)
+    else throw "bad table entry")
+  let r := SnootyVerif.Constants.render tbl
+  pure (Json.mkObj [("constants", Json.arr (r.1.map (fun kv => Json.arr #[Json.str kv.1, Json.str kv.2])).toArray),
+                    ("diags", jstrs r.2)])
+
 def ops : List (String × (Json → Except String Json)) :=
-  [("c16.check", checkOp), ("c16.open", openOp), ("c16.resolve", resolveOp), ("c16.types", typesOp)]
+  [("c16.constants", constantsOp), ("c16.check", checkOp), ("c16.open", openOp), ("c16.resolve", resolveOp), ("c16.types", typesOp)]
 
 end SnootyVerif.Drv.C16
